@@ -1,6 +1,10 @@
 package text
 
-import "github.com/gobuffalo/plush/v5/helpers/hctx"
+import (
+	"unicode/utf8"
+
+	"github.com/gobuffalo/plush/v5/helpers/hctx"
+)
 
 // Truncate will try to return a string that is no longer
 // than `size`, which defaults to 50. If given
@@ -27,5 +31,13 @@ func Truncate(s string, opts hctx.Map) string {
 	if len(runesTrail) >= size {
 		return trail
 	}
-	return string(runesS[:size-len(runesTrail)]) + trail
+	// cut s itself after the kept characters, so that the result is a
+	// prefix of s even where s is not valid UTF-8
+	end := 0
+	for i := 0; i < size-len(runesTrail); i++ {
+		_, w := utf8.DecodeRuneInString(s[end:])
+		end += w
+	}
+
+	return s[:end] + trail
 }
